@@ -7,6 +7,8 @@
 //	rselect  reflect.Select(  -> simrt.ReflectSelect(
 //	go       go f(x)     -> child identity allocated in the parent (simrt.Spawn/RunG)
 //	maprange range <map> -> range simrt.SortedRange(<map>)
+//	stmt     simrt.Stmt("file:func:line") before every statement of every function
+//	         (a park only in runs that selected that function for fine-grained scheduling)
 //
 // usage: instrument [-skip a,b] dir...   (rewrites non-test .go files in place)
 package main
@@ -46,8 +48,8 @@ func main() {
 			os.Exit(1)
 		}
 	}
-	fmt.Printf("instrumented: sync=%d rand=%d select=%d rselect=%d go=%d maprange=%d\n",
-		total["sync"], total["rand"], total["select"], total["rselect"], total["go"], total["maprange"])
+	fmt.Printf("instrumented: sync=%d rand=%d select=%d rselect=%d go=%d maprange=%d stmt=%d\n",
+		total["sync"], total["rand"], total["select"], total["rselect"], total["go"], total["maprange"], total["stmt"])
 }
 
 type fakeImporter struct{}
@@ -237,8 +239,88 @@ func (r *rewriter) run() {
 		return true
 	})
 
+	if !skip["stmt"] {
+		r.stmts()
+	}
 	if r.needSim {
 		r.addImport("simrt", simrtPath)
+	}
+}
+
+// stmts inserts simrt.Stmt(site) before every statement in function bodies.
+func (r *rewriter) stmts() {
+	var instr func(fn string, list []ast.Stmt) []ast.Stmt
+	var walk func(fn string, n ast.Node)
+	instr = func(fn string, list []ast.Stmt) []ast.Stmt {
+		out := make([]ast.Stmt, 0, 2*len(list))
+		for _, st := range list {
+			switch st.(type) {
+			case *ast.CaseClause, *ast.CommClause, *ast.EmptyStmt:
+				out = append(out, st)
+				continue
+			}
+			if es, ok := st.(*ast.ExprStmt); ok {
+				if c, ok := es.X.(*ast.CallExpr); ok {
+					if se, ok := c.Fun.(*ast.SelectorExpr); ok {
+						if x, ok := se.X.(*ast.Ident); ok && x.Name == "simrt" && se.Sel.Name == "Stmt" {
+							out = append(out, st)
+							continue
+						}
+					}
+				}
+			}
+			site := r.base + ":" + fn + ":" + strconv.Itoa(r.fset.Position(st.Pos()).Line)
+			if st.Pos().IsValid() {
+				out = append(out, &ast.ExprStmt{X: call(sim("Stmt"), strlit(fn), strlit(site))})
+				r.n["stmt"]++
+				r.needSim, r.changed = true, true
+			}
+			out = append(out, st)
+		}
+		return out
+	}
+	skipLit := map[*ast.FuncLit]bool{}
+	walk = func(fn string, n ast.Node) {
+		ast.Inspect(n, func(m ast.Node) bool {
+			switch b := m.(type) {
+			case *ast.CallExpr:
+				// x.Do(func(){...}): sync.Once holds a real mutex while the function
+				// runs; parking there could stall the bubble
+				if se, ok := b.Fun.(*ast.SelectorExpr); ok && se.Sel.Name == "Do" {
+					for _, a := range b.Args {
+						if fl, ok := a.(*ast.FuncLit); ok {
+							skipLit[fl] = true
+						}
+					}
+				}
+			case *ast.FuncLit:
+				if skipLit[b] {
+					return false
+				}
+				if b.Body != nil && m != n {
+					walk(fn, b.Body)
+					return false
+				}
+			case *ast.BlockStmt:
+				b.List = instr(fn, b.List)
+			case *ast.CaseClause:
+				b.Body = instr(fn, b.Body)
+			case *ast.CommClause:
+				b.Body = instr(fn, b.Body)
+			}
+			return true
+		})
+	}
+	for _, d := range r.file.Decls {
+		fd, ok := d.(*ast.FuncDecl)
+		if !ok || fd.Body == nil {
+			continue
+		}
+		name := fd.Name.Name
+		if name == "init" {
+			continue
+		}
+		walk(name, fd.Body)
 	}
 }
 
